@@ -23,13 +23,22 @@ def generate(seed, tier="quick"):
     d = cfg["datasets"][0]
     if d.get("orbit_from"):
         d["orbit_from"] = [0, d["orbit_from"][1] % lib["n"]]
-    N = lib["n"]
+    import copy as _copy
+
+    lib2 = _copy.deepcopy(lib)
+    lib2["n"] = rnd.choice([1, 2, 3, 5, 7, 12, 20, rnd.randint(1, 60)])
+    lib2["gen_seed"] = rnd.getrandbits(48)
+    cfg["libraries"].append(lib2)
     ops = []
     oid = 0
-    for _ in range(rnd.randint(2, 4)):
+    for _ in range(rnd.randint(2, 5)):
         kind = rnd.choice(["mll", "mll", "rejection", "iterative"])
         src = rnd.choice(["object", "file"])
-        op = {"id": oid, "op": kind, "data": 0, "lib": 0, "source": src, "in_memory": False, "joker": rnd.choice(["main", "fresh"]), "role": "target"}
+        li = rnd.randrange(2)
+        N = cfg["libraries"][li]["n"]
+        op = {"id": oid, "op": kind, "data": 0, "lib": li, "source": src, "in_memory": False, "joker": rnd.choice(["main", "fresh"]), "role": "target"}
+        if src == "file" and rnd.random() < 0.5:
+            op["alias"] = "shared"  # one file name, rewritten with the other library (other row count) in between
         if op["joker"] == "fresh":
             op["pool"] = rnd.choice([{"kind": "serial"}, {"kind": "sim", "size": rnd.randint(1, 7)}])
         nb = rnd.choice([None, 1, 2, 3, N - 1 if N > 1 else 1, N, N + 1, N + rnd.randint(2, 9), rnd.randint(1, max(1, N))])
@@ -137,6 +146,34 @@ def evaluate(dep, program):
             probe("seam_vs_partition_compared")
             if want != got:
                 v.append(Violation(PROPERTY, "C16.seam", "C16:pool-seam:tasks-differ-from-the-partition-produced", "map %s: partition made %d batches %s, pool received %d %s" % (m["key"], len(want), want[:6], len(got), got[:6])))
+    # every fan-out covers exactly what it was asked to cover: the supplied index array in order, else the first
+    # n_prior_samples rows, else every row the file holds NOW
+    pools = {id(pl): pl for pl in dep.pools}
+    for c in dep.run_worker_calls:
+        pl = pools.get(c["pool"])
+        if pl is None:
+            continue
+        maps = getattr(pl, "map_calls", [])
+        if c["pool_maps_before"] >= len(maps):
+            continue  # the call failed before reaching the pool
+        m = maps[c["pool_maps_before"]]
+        rows = []
+        for t in m["tasks"]:
+            rows += list(range(*t["rows"])) if t["kind"] == "range" else [int(x) for x in t["rows"]]
+        if c["samples_idx"] is not None:
+            want = [int(x) for x in c["samples_idx"]]
+            what = "the supplied index array"
+        elif c["n_prior_samples"] is not None:
+            want = list(range(c["n_prior_samples"]))
+            what = "the first n_prior_samples rows"
+        elif c["n_file"] is not None:
+            want = list(range(c["n_file"]))
+            what = "all rows the file holds now"
+        else:
+            continue
+        probe("fanout_cover_checked")
+        if rows != want and len(want) >= 1:
+            v.append(Violation(PROPERTY, "C16.cover", "C16:pool-seam:fan-out-does-not-cover-%s" % what.replace(" ", "-"), "map %s (%s): asked for %s = %s, tasks cover %s" % (m["key"], c["worker"], what, want[:20], rows[:20])))
     # coverage at op level: the likelihood map of an mll op covers exactly range(N) in order
     for rec in dep.history:
         op = rec["op"]
